@@ -10,6 +10,7 @@ import Fbr.Gen.PtUtil
 import Fbr.Gen.VfsSync
 import Fbr.Gen.VfsMod
 import Fbr.Lemmas.HostRefDemo
+import Fbr.Lemmas.PtHostExportHist
 
 namespace Fbr.Thm.C06
 open Fbr.Host Fbr.PtHost
@@ -241,22 +242,13 @@ theorem rename_link_stay_inside (s : State) (g : Good s) (c : HCall)
     rcases hc with ⟨_, _, _, rfl⟩ | ⟨_, _, _, _, rfl⟩ | ⟨_, _, _, rfl⟩ | ⟨_, _, _, _, _, rfl⟩ | ⟨_, _, _, rfl⟩ | ⟨_, _, _, _, _, rfl⟩ <;> cases e
   exact ⟨good_step s g c h1, fun x hx => sentinel_untouched s g c h2 x hx⟩
 
-/-- **inode_table_within_export (partial).**  `Inv s := Good s`: every open descriptor — the
+/-- **confined_program_stays_inside.**  For the reference host: `Good` (every open descriptor — the
     O_PATH descriptors of the inode table and the descriptors of the handle table are descriptors
-    — and every file handle denotes an object of the export.  Proved, for the reference host: `Inv`
-    is preserved by every call that is confined in the state it is issued in (`good_step`), hence
-    by every *program* — a request, or by induction over the request list a whole history — all of
-    whose calls are confined (`AllConfined`), and such a run changes no object of the sentinel tree.
-    Proved about the passthrough: every `openat` of every request is an `O_PATH|O_NOFOLLOW` lookup
-    or an `O_CREAT|O_EXCL` creation (`C05.special_files_never_opened` / `IoSafe`), lookup names
-    contain no '/' (`lookup_single_component`), mutator names are plain (`mutators_reject_bad_names`),
-    ".." on inode 1 is sent as "." (`dotdot_at_root_is_root`).
-    Not proved in Lean (hence `_partial`): that these facts give `AllConfined` for `Pt.step` — the
-    remaining obligation is "only inode 1 denotes the export root object" (one table entry per
-    host object, the invariant of C08) so that ".." is never sent on a descriptor of the export
-    root; it is checked on the real code by the direct oracles `C06:escape:*` (no descriptor is ever
-    opened on a sentinel object) and `C06:sentinel-modified:*`. -/
-theorem inode_table_within_export_partial {α : Type} (sent : Obj → Bool) (root : Obj) (p : Prog α) (s : State)
+    — and every file handle denotes an object of the export) is preserved by every *program* all of
+    whose calls are confined in the state they are issued in (`AllConfined`), and such a run
+    changes no object of the sentinel tree.  (`inode_table_within_export` below proves that every
+    request of the passthrough is such a program.) -/
+theorem confined_program_stays_inside {α : Type} (sent : Obj → Bool) (root : Obj) (p : Prog α) (s : State)
     (inv : Good s) (hconf : AllConfined sent root p s) :
     Good ((p.run (ops sent root) s).2.1) ∧
     (∀ f e, (p.run (ops sent root) s).2.1.fds f = some e → s.sent e.obj = false) ∧
@@ -264,21 +256,101 @@ theorem inode_table_within_export_partial {α : Type} (sent : Obj → Bool) (roo
   have h := run_good sent root p s inv hconf
   refine ⟨h.1, ?_, h.2⟩
   intro f e he
-  have hs : (p.run (ops sent root) s).2.1.sent = s.sent := by
-    clear h he
-    induction p generalizing s with
-    | pure a => rfl
-    | call c k ih =>
-      have := ih _ (step s c).2 (good_step' s inv c hconf.1) hconf.2.2
-      show ((k (step s c).1).run (ops sent root) (step s c).2).2.1.sent = s.sent
-      rw [this, step_sent]
+  have hs : (p.run (ops sent root) s).2.1.sent = s.sent := Fbr.PtHost.run_sent sent root p s
   rw [← hs]
   exact h.1.fds f e he
+
+open Fbr.PtHost in
+/-- **inode_table_within_export.**  The passthrough model (`Fbr.PtHost`, every configuration bit:
+    file handles, `use_host_ino`, `no_open`, …) run on the reference host FS.  Start: a host state
+    in which every descriptor / file handle denotes an export object (`Good`) and the descriptor
+    tables are well-formed (`Wf`: ids below their counters, one handle id per inode); the table
+    after `import()` (`initState`), whose root handle denotes the export root.  Then for **every
+    history** `rs` of requests — every name, every inode / handle number, every flag word —
+
+    * the host state is `Good` again, and every entry of the inode table denotes — by its O_PATH
+      descriptor or its file handle — the object recorded as its id, an object of the export;
+    * **exactly the entries numbered 1 denote the export root** (the fact the earlier `_partial`
+      version was missing: ".." is rewritten only on inode 1, so ".." is never sent on a descriptor
+      of the export root under another number);
+    * every open descriptor (inode table, handle table, temporaries) and every file handle of the
+      host denotes an export object; no object of the sentinel tree has changed.
+
+    No hypothesis on the history when the passthrough is standalone (`do_import = true`, see
+    `inode_table_within_export_standalone`).  Behind a VFS (`do_import = false`) the passthrough
+    skips its own name check, and the hypothesis `FrontChecked` states what the front end has
+    checked instead (`vfs_mutators_start_with_name_check`): names handed to symlink / mknod /
+    mkdir / create / link contain no '/'.  Proof: the joint invariant `Fbr.PtHost.J` of table and
+    host is kept by every request and every call of every request is confined in the state it is
+    issued in (`jsafe_handle`: `do_lookup`'s one `openat` is `O_PATH|O_NOFOLLOW`, single component,
+    never ".." on the export root; CREATE's is `O_CREAT|O_EXCL`); induction over the history. -/
+theorem inode_table_within_export (sent : Obj → Bool) (root : Obj) (cfg : Cfg) (rs : List Req) (h : State)
+    (inv : Good h) (wf : Wf h) (rootHandle : IHandle) (rootMode : Nat)
+    (hroot : Denotes h rootHandle h.exportRoot) (hfront : ∀ r ∈ rs, r.FrontChecked cfg) :
+    Good (runHistory (ops sent root) cfg (initState rootHandle h.exportRoot rootMode) h rs).2 ∧
+    (∀ d ∈ (runHistory (ops sent root) cfg (initState rootHandle h.exportRoot rootMode) h rs).1.inodes,
+      Denotes (runHistory (ops sent root) cfg (initState rootHandle h.exportRoot rootMode) h rs).2 d.handle d.id ∧
+      h.sent d.id = false ∧ (d.id = h.exportRoot ↔ d.inode = ROOT_ID)) ∧
+    (∀ f e, (runHistory (ops sent root) cfg (initState rootHandle h.exportRoot rootMode) h rs).2.fds f = some e →
+      h.sent e.obj = false) ∧
+    (∀ k o, (runHistory (ops sent root) cfg (initState rootHandle h.exportRoot rootMode) h rs).2.handles k = some o →
+      h.sent o = false) ∧
+    (∀ x, h.sent x = true →
+      (runHistory (ops sent root) cfg (initState rootHandle h.exportRoot rootMode) h rs).2.nodes x = h.nodes x) := by
+  have j0 := j_init h inv wf rootHandle rootMode hroot
+  obtain ⟨j, hsent, hnodes⟩ := j_history sent root cfg rs hfront _ h j0
+  have hexp := runHistory_exportRoot sent root cfg rs (initState rootHandle h.exportRoot rootMode) h
+  refine ⟨j.good, ?_, ?_, ?_, hnodes⟩
+  · intro d hd
+    refine ⟨j.den d hd, ?_, ?_⟩
+    · rw [← hsent]; exact j.inside d hd
+    · rw [← hexp]; exact ⟨j.uniq d hd, j.rootId d hd⟩
+  · intro f e he; rw [← hsent]; exact j.good.fds f e he
+  · intro k o hk; rw [← hsent]; exact j.good.handles k o hk
+
+open Fbr.PtHost in
+/-- the standalone passthrough (`do_import = true`, names checked by `validate_path_component`):
+    `inode_table_within_export` for every history, no hypothesis on the requests -/
+theorem inode_table_within_export_standalone (sent : Obj → Bool) (root : Obj) (cfg : Cfg) (hcfg : cfg.doImport = true)
+    (rs : List Req) (h : State) (inv : Good h) (wf : Wf h) (rootHandle : IHandle) (rootMode : Nat)
+    (hroot : Denotes h rootHandle h.exportRoot) :
+    Good (runHistory (ops sent root) cfg (initState rootHandle h.exportRoot rootMode) h rs).2 ∧
+    (∀ d ∈ (runHistory (ops sent root) cfg (initState rootHandle h.exportRoot rootMode) h rs).1.inodes,
+      Denotes (runHistory (ops sent root) cfg (initState rootHandle h.exportRoot rootMode) h rs).2 d.handle d.id ∧
+      h.sent d.id = false ∧ (d.id = h.exportRoot ↔ d.inode = ROOT_ID)) ∧
+    (∀ f e, (runHistory (ops sent root) cfg (initState rootHandle h.exportRoot rootMode) h rs).2.fds f = some e →
+      h.sent e.obj = false) ∧
+    (∀ k o, (runHistory (ops sent root) cfg (initState rootHandle h.exportRoot rootMode) h rs).2.handles k = some o →
+      h.sent o = false) ∧
+    (∀ x, h.sent x = true →
+      (runHistory (ops sent root) cfg (initState rootHandle h.exportRoot rootMode) h rs).2.nodes x = h.nodes x) :=
+  inode_table_within_export sent root cfg rs h inv wf rootHandle rootMode hroot
+    (fun r _ => frontChecked_standalone cfg r hcfg)
+
+/-- every request of every such history is a confined program: `AllConfined` holds of
+    `Pt.step cfg pt r` in any state satisfying the joint invariant (which every reachable state
+    does, `j_history`) -/
+theorem requests_are_confined (sent : Obj → Bool) (root : Obj) (cfg : Fbr.PtHost.Cfg) (r : Fbr.PtHost.Req)
+    (hr : r.FrontChecked cfg) (pt : Fbr.PtHost.PtState) (h : State) (j : Fbr.PtHost.J pt h) :
+    AllConfined sent root (Fbr.PtHost.step cfg pt r) h :=
+  (Fbr.PtHost.j_request sent root cfg r hr pt h j).1
 
 /-! ### non-vacuity (a concrete host: `Fbr.Lemmas.HostRefDemo`) -/
 
 /-- the invariant holds of a concrete state with a sentinel tree around the export -/
 example : Good demo := demo_good
+
+/-- the hypotheses of `inode_table_within_export` hold of it: well-formed tables, and descriptor 0
+    (the root handle of `import()`) denotes the export root -/
+example : Wf demo ∧ Fbr.PtHost.Denotes demo (.file 0) demo.exportRoot := ⟨Fbr.PtHost.demo_wf, rfl⟩
+
+/-- a history on that host that walks down, back up with "..", and onto the out-pointing symlink:
+    "a" gets number 2, ".." from it finds the root entry again (number 1, object 2: its count goes
+    2 → 4 with the "." / ".." lookups), the symlink is entered as itself (object 3) -/
+example :
+    (Fbr.PtHost.runHistory (ops demoSent 2) {} (Fbr.PtHost.initState (.file 0) 2 16877) demo
+      [.lookup 1 sA, .lookup 2 dotdot, .lookup 2 dot, .lookup 1 dotdot, .lookup 1 sLnk]).1.inodes.map
+      (fun d => (d.inode, d.id, d.refcount)) = [(3, 3, 1), (2, 4, 2), (1, 2, 4)] := by decide
 
 /-- O_NOFOLLOW on a symlink that points out of the export yields the link itself (object 3) … -/
 example : (stepCore demo (.openat 0 sLnk (O_NOFOLLOW ||| O_CLOEXEC ||| O_PATH) 0)).1 = .fd 1 3 := by decide
